@@ -137,9 +137,12 @@ def theorem_status(prop):
 
 
 # ---------------------------------------------------------------- Go harness
-def build_harness():
+def build_harness(race=False):
     shutil.copy(os.path.join(REPO, 'go.sum'), os.path.join(HARNESS, 'go.sum'))
-    p = run(['go', 'build', '-tags', 'verif', '-o', 'vh', '.'], cwd=HARNESS, env=GOENV)
+    if race:
+        p = run(['go', 'build', '-race', '-tags', 'verif', '-o', 'vh_race', '.'], cwd=HARNESS, env=dict(GOENV, CGO_ENABLED='1'))
+    else:
+        p = run(['go', 'build', '-tags', 'verif', '-o', 'vh', '.'], cwd=HARNESS, env=GOENV)
     return p.returncode == 0, (p.stdout + p.stderr)[-4000:]
 
 
